@@ -5,7 +5,7 @@ from ..driver import drive, result_of
 from ..searchmon import SequOOLMon
 
 PROP = "C12"
-FAMS = ["negbern", "nonpos3", "cl_negdist", "bern", "quant5", "neg", "const", "zero", "tied", "twoval", "noisy", "unit", "large", "incr", "decr", "cl_hump", "cl_garland",
+FAMS = ["int3wide", "negbern", "nonpos3", "cl_negdist", "bern", "quant5", "neg", "const", "zero", "tied", "twoval", "noisy", "unit", "large", "incr", "decr", "cl_hump", "cl_garland",
         "cl_step", "best_first", "best_last", "incr", "drift", "best_last", "noisy", "quant5"]
 RULE = ("SequOOL with budgets n = 10..2000 on all partitions, d=1..3, T = n (plus get_last_point queries in the last "
         "rounds); every make_children is an 'open' event judged against the ledger at that moment (first open is the "
